@@ -5,6 +5,7 @@ package main
 import (
 	"encoding/hex"
 	"fmt"
+	"runtime"
 	"runtime/debug"
 	"strings"
 
@@ -160,10 +161,12 @@ type caseT struct {
 	PreField string `json:"pre_field,omitempty"`
 	PreClass string `json:"pre_class,omitempty"`
 	PreDesc  string `json:"pre_desc,omitempty"`
-	Hex      string `json:"hex,omitempty"`
-	raw      []byte
-	pre      [][]byte
-	preCh    []byte
+	// drive the node on after the delivery: "rounds" (at least 3 more rounds) or "commit" (and a height)
+	Drive string `json:"drive,omitempty"`
+	Hex   string `json:"hex,omitempty"`
+	raw   []byte
+	pre   [][]byte
+	preCh []byte
 }
 
 func (c *caseT) bytes() []byte {
@@ -219,9 +222,11 @@ type outcome struct {
 	// fetcher search: a removed peer is still listed as an origin (observation)
 	StaleOrigin bool
 	// fetcher search: delayed request calls released in the sequence
-	LateCalls  int
-	GossipSent int // messages the gossip routines sent to the peer
-	GossipRuns int
+	LateCalls int
+	// drive-on: rounds the node entered and heights it committed after the delivery
+	DroveRounds, DroveHeights int
+	GossipSent                int // messages the gossip routines sent to the peer
+	GossipRuns                int
 }
 
 func (o *outcome) viol(oracle, f string, a ...interface{}) {
@@ -260,6 +265,18 @@ func guarded(f func()) (p interface{}, stk string) {
 	}()
 	f()
 	return nil, ""
+}
+
+// runtimeErrorInReceive: a Go runtime error (index out of range, nil dereference, slice bounds, makeslice)
+// inside Receive's own stack is a violation ("does not panic"), although MConnection's recover contains it
+// and only the sending peer is dropped: such a panic is never intended. Explicit panics of the
+// repository's own code (panic("Peer has no state"), PanicSanity, ...) stay recorded-only under the
+// contained-panic rule.
+func runtimeErrorInReceive(out *outcome, pn interface{}, stk string) {
+	if _, ok := pn.(runtime.Error); ok {
+		out.viol("runtime-error-in-receive", "Receive panicked with a Go runtime error on a message of a live peer (contained by the connection's recover, the peer is dropped; the property says the node does not panic): %v at %s",
+			short(fmt.Sprint(pn), 200), panicSite(stk))
+	}
 }
 
 func short(s string, n int) string {
@@ -410,6 +427,9 @@ func (e *consEnv) run(cs *caseT) *outcome {
 	pn, stk := guarded(func() { c.ConR.Receive(cs.Ch, p, msg) })
 	if pn != nil {
 		out.Contained = fmt.Sprintf("%v at %s", short(fmt.Sprint(pn), 160), panicSite(stk))
+		if cs.Peer != peerGone {
+			runtimeErrorInReceive(out, pn, stk)
+		}
 	}
 	out.Queued = 0
 	e.drain(c, out)
@@ -498,6 +518,10 @@ func (e *consEnv) run(cs *caseT) *outcome {
 		if h := consensus.VerifC18HeldLocks(c.ConR, psOf(p), psOf(b)); len(h) > 0 {
 			out.viol("lock-leaked", "locks held after the gossip routines ran: %s", strings.Join(h, ", "))
 		}
+	}
+	if cs.Drive != "" && !failed {
+		e.driveOn(c, out, cs.Drive == "commit")
+		failed = true // the node has moved on: it is rebuilt for the next case
 	}
 	// preceding deliveries may have moved the node as well: compare with the key the node was built with
 	preMoved := len(cs.pre) > 0 && (failed || consensus.VerifC18NodeKey(c.N) != c.Key)
